@@ -35,6 +35,9 @@ class SerialGateway(BaseSyncGateway, BaseSerialGateway):
     def __init__(self, *args, **kwargs):
         """Set up serial gateway."""
         transport = SyncTransport(self, sync_connect, **kwargs)
+        # Transport options are not passed on to the base gateway classes.
+        kwargs.pop("timeout", None)
+        kwargs.pop("reconnect_timeout", None)
         super().__init__(transport, *args, **kwargs)
 
     def get_gateway_id(self):
@@ -78,6 +81,9 @@ class AsyncSerialGateway(BaseAsyncGateway, BaseSerialGateway):
     def __init__(self, *args, **kwargs):
         """Set up serial gateway."""
         transport = AsyncTransport(self, async_connect, **kwargs)
+        # Transport options are not passed on to the base gateway classes.
+        kwargs.pop("timeout", None)
+        kwargs.pop("reconnect_timeout", None)
         super().__init__(transport, *args, **kwargs)
 
     async def get_gateway_id(self):
